@@ -2,6 +2,7 @@ package server
 
 import (
 	"context"
+	"errors"
 	"strings"
 	"time"
 
@@ -52,7 +53,7 @@ func vInstallReelectStandIns() {
 			vYield()
 		}
 		if !vReGot {
-			return nil, nats.ErrTimeout
+			return nil, errors.New("no reply")
 		}
 		return &nats.Msg{Data: vReRsp}, nil
 	})
@@ -83,8 +84,8 @@ func vInstallReelectStandIns() {
 // replicas' own logs (not the leader's bookkeeping): the leader's HW never
 // exceeds its own log end nor what any replica listed in sync holds; an
 // ALL-policy ack is only out when every replica listed in sync holds the
-// message; followers hold copies of a prefix of the leader's log up to their
-// HW; every message that was ever at or below the leader's HW is still on the
+// message; every live follower's log is a copy of a prefix of the leader's
+// (each of them reconciled with every new leader); every message that was ever at or below the leader's HW is still on the
 // current leader, unchanged.
 func VerifC02Reelected() {
 	vInstallReelectStandIns()
@@ -122,6 +123,15 @@ func VerifC02Reelected() {
 				continue
 			}
 			p := r.p
+			if n != name && p.isFollowing {
+				// a fetch this follower sent in the old leader's epoch, before it
+				// learned of the change, reaches the new leader (the request inbox
+				// belongs to the partition, not to a leader): it carries the
+				// follower's log end from the old term and must be ignored
+				_, err := p.sendReplicationRequest(p.LeaderEpoch)
+				vAssert(err != nil, "a replication request from an older leader epoch is not answered")
+				vCover("late-request")
+			}
 			p.mu.Lock()
 			p.Leader, p.LeaderEpoch = name, epoch
 			var err error
@@ -163,12 +173,16 @@ func VerifC02Reelected() {
 			}
 			fl := f.p.log
 			vAssert(fl.HighWatermark() <= hw, what+": a follower's high watermark never exceeds the leader's")
-			for o := int64(0); o <= fl.HighWatermark(); o++ {
+			// every live replica took part in every leader change (it reconciled
+			// its log with each new leader), so its log is a copy of a prefix of
+			// the current leader's - also above its high watermark
+			vAssert(fl.NewestOffset() <= lead.NewestOffset(), what+": a follower that reconciled with the leader holds nothing beyond the leader's log")
+			for o := int64(0); o <= fl.NewestOffset() && o <= lead.NewestOffset(); o++ {
 				fv, fe, ok1 := vLogAt(fl, o)
 				lv, le, ok2 := vLogAt(lead, o)
-				vAssert(ok1 && ok2, what+": committed offsets are readable on leader and follower")
+				vAssert(ok1 && ok2, what+": replicated offsets are readable on leader and follower")
 				if ok1 && ok2 {
-					vAssert(len(fv) == len(lv) && len(lv) >= 1 && fv[0] == lv[0], what+": a follower holds the leader's message at every offset up to its high watermark")
+					vAssert(len(fv) == len(lv) && len(lv) >= 1 && fv[0] == lv[0], what+": a follower that reconciled with the leader holds the leader's message at every offset it has")
 					vAssert(fe == le, what+": with the leader's epoch")
 				}
 			}
